@@ -124,6 +124,9 @@ def run():
             cmp("div0", lambda a: a / (a - 1.0) if isinstance(a, SymArray) else None,
                 lambda a: np.asarray(a) / (np.asarray(a) - 1.0), v)
             cmp("sqrt", np.sqrt, np.sqrt, v)
+        cmp("percentile(empty)", np.percentile, np.percentile, [], 50)
+        cmp("quantile_nu(empty)", lambda a, qq: np.quantile(a, qq, method="normal_unbiased"),
+            lambda a, qq: np.quantile(a, qq, method="normal_unbiased"), [], 0.5)
         for a in VECTORS:
             for b in VECTORS[:8]:
                 cmp("intersect1d", np.intersect1d, np.intersect1d, a, b)
